@@ -4,7 +4,7 @@ from ..core import *
 from ..syncmap_common import *
 from .c04 import mc_consts, MC_INV
 
-CLAUSES = ["I_NoPanic", "I_Build", "I_Result", "I_Detached", "I_Bulk", "I_Product", "I_RangeStop", "I_Ctor"]
+CLAUSES = ["I_NoPanic", "I_Build", "I_Result", "I_Detached", "I_Bulk", "I_Product", "I_RangeStop", "I_Ctor", "I_StringTy"]
 BIN = ["Union", "Intersect", "SetDiff", "SymDiff", "Clone", "AddSet", "RemoveSet", "Product"]
 
 
@@ -56,6 +56,13 @@ def check(run):
     for ctor in ("maps.Slice", "sync2.Slice", "maps.Keys", "sync2.Keys", "maps.Values", "sync2.Values"):
         for vals in [[], [1], [2, 2], [1, 2, 3], [3, 1, 3, 1], [2, 2, 2, 1]]:
             plan.append(dict(nu=nu, op="Ctor", ctor=ctor, vals=vals, px=1, py=1, same=False))
+    # String() on other element types (arrays, strings holding brackets, pointers, the empty string), every member order accepted
+    for kind in ("maps", "sync2"):
+        for ety in ("int", "arr", "bstr", "ptr", "str"):
+            for vals in ([], [0], [3], [1, 2], [0, 5], [1, 2, 3], [5, 3, 0], [7, 8, 9, 4]):
+                if ety == "ptr" and len(vals) != len(set(vals)):
+                    continue
+                plan.append(dict(nu=nu, op="StringTy", kind=kind, ety=ety, vals=vals, px=1, py=1, same=False))
     # larger universes: operands of very different sizes (walk-the-smaller-operand shortcuts), disjoint, nested, equal, empty
     for nu2 in ((9, 40, 300) if q else (9, 40, 300, 1500)):
         U2 = list(range(1, nu2 + 1))
